@@ -93,6 +93,9 @@ func awsInstanceBody() *schema.BodySchema {
 				Description: md("ebs-desc"),
 				Body: &schema.BodySchema{
 					Description: md("ebs-body-desc"),
+					// non-nil extensions without DynamicBlocks: the decoder has to set
+					// the flag on its own copy of this nested dependent block
+					Extensions: &schema.BodyExtensions{SelfRefs: true},
 					Attributes: map[string]*schema.AttributeSchema{
 						"device_name": {IsRequired: true, Constraint: schema.AnyExpression{OfType: cty.String}, Description: md("device_name-desc")},
 						"volume_size": {IsOptional: true, Constraint: schema.AnyExpression{OfType: cty.Number}, Description: md("volume_size-desc")},
